@@ -1236,7 +1236,9 @@ def loop_forms(tree):
 # temporaries that do not exist on the reference tree
 
 
-_PURE_FUNCS = {'map', 'filter', 'len', 'isinstance', 'issubclass', 'tuple', 'list', 'set', 'frozenset', 'bool', 'str', 'int', 'sorted', 'min', 'max',
+# functions of the repository that only compute a value from their arguments (checked by reading; they hold no state)
+REPO_PURE_FUNCS = {'_is_literally_representable', '_might_have_parameter', 'config_is_locked', 'current_scope', 'current_scope_str'}
+_PURE_FUNCS = REPO_PURE_FUNCS | {'map', 'filter', 'len', 'isinstance', 'issubclass', 'tuple', 'list', 'set', 'frozenset', 'bool', 'str', 'int', 'sorted', 'min', 'max',
                'any', 'all', 'type', 'repr', 'callable', 'hasattr', 'getattr', 'dict', 'enumerate', 'zip', 'range', 'reversed'}
 # methods of the repository's own immutable records (config_parser.ImportStatement is a NamedTuple) that only read fields;
 # rule C19.unique-names re-checks on every run that they still are side-effect free
@@ -1779,6 +1781,57 @@ def _rewrite_for_genexp(fn, body_list, noret=()):
         st.body = [ast.copy_location(ast.If(test=test, body=st.body, orelse=[]), st)]
         ast.fix_missing_locations(st)
         changed += 1
+  # general form:  for T in (ELT for a in A [if c] for b in B ...): BODY   ->   for a in A: [if c:] for b in B: T = ELT; BODY
+  for i, st in enumerate(body_list):
+    if isinstance(st, ast.For) and not st.orelse and isinstance(st.iter, ast.GeneratorExp) and fn is not None:
+      ge = st.iter
+      multi = len(ge.generators) > 1
+      def _loop_level_jump(stmts):
+        for x in stmts:
+          if isinstance(x, (ast.Break, ast.Continue)):
+            return True
+          if isinstance(x, (ast.For, ast.While) + FN + (ast.ClassDef,)):
+            continue
+          for fld in ('body', 'orelse', 'finalbody'):
+            if _loop_level_jump(getattr(x, fld, []) or []):
+              return True
+          for h in getattr(x, 'handlers', []) or []:
+            if _loop_level_jump(h.body):
+              return True
+        return False
+      has_jump = _loop_level_jump(st.body)
+      if has_jump and (multi or any(g_.ifs for g_ in ge.generators)):
+        continue
+      bound = set()
+      for g_ in ge.generators:
+        bound |= {n.id for n in ast.walk(g_.target) if isinstance(n, ast.Name)}
+      tnames = {n.id for n in ast.walk(st.target) if isinstance(n, ast.Name)}
+      if any(_used_after(fn, st, nm) for nm in bound - tnames):
+        continue
+      # comprehension variables become function locals: keep them apart from names the function already uses
+      inside_ge = {id(n) for n in ast.walk(ge)}
+      outside = {n.id for n in ast.walk(fn) if isinstance(n, ast.Name) and id(n) not in inside_ge}
+      clash = {nm: nm + '__g' for nm in bound if nm in outside and nm not in tnames}
+      if clash:
+        for n in ast.walk(ge):
+          if isinstance(n, ast.Name) and n.id in clash:
+            n.id = clash[n.id]
+      same = ast.unparse(ge.elt) == ast.unparse(st.target)
+      inner = ([] if same else [ast.Assign(targets=[st.target], value=ge.elt)]) + list(st.body)
+      new = None
+      for g_ in reversed(ge.generators):
+        if g_.ifs:
+          inner = [ast.If(test=g_.ifs[0] if len(g_.ifs) == 1 else ast.BoolOp(op=ast.And(), values=list(g_.ifs)), body=inner, orelse=[])]
+        tgt = copy.deepcopy(g_.target)
+        for n in ast.walk(tgt):
+          if isinstance(n, (ast.Name, ast.Tuple, ast.List, ast.Starred)):
+            n.ctx = ast.Store()
+        new = ast.For(target=tgt, iter=g_.iter, body=inner, orelse=[])
+        inner = [new]
+      ast.copy_location(new, st)
+      ast.fix_missing_locations(new)
+      body_list[i] = new
+      changed += 1
   k = 0
   while k + 1 < len(body_list):
     a, b = body_list[k], body_list[k + 1]
@@ -2387,7 +2440,15 @@ def match_reference_shape(tree, modname, table=None):
 def post_canon(tree, modname):
   """Second stage, run after the local names were mapped back to the reference names."""
   a = b = 0
+  from .canon import canonicalise
   for _round in range(3):
+    if _round:
+      canonicalise(tree, modname)      # rewrites of the previous round may have made more bindings line up with the reference
+    # loop forms first: a binding that only differs by the loop form it sits in must get its reference name before temporaries are judged
+    b0 = loop_forms(tree)
+    if b0:
+      canonicalise(tree, modname)
+      b += b0
     a1 = inline_temps(tree, modname)
     a1 += match_reference_shape(tree, modname)
     b1 = loop_forms(tree)
